@@ -268,7 +268,10 @@ def succeeds (nd : Node) (b : Block) : Bool :=
 contract that is deployed by then (by an earlier block or by this very diff) or a system
 contract (`NewContractUpdater` / `getStateObject` fail with "contract not deployed" otherwise). -/
 def storageOk (nd : Node) (b : Block) : Bool :=
-  b.diff.storage.all (fun e => isSystemContract e.1 || deployedIn (nd.chain ++ [b]) e.1)
+  b.diff.storage.all (fun e => isSystemContract e.1 || deployedIn (nd.chain ++ [b]) e.1) &&
+  -- likewise a nonce or a class replacement for a contract that does not exist is refused
+  b.diff.nonces.all (fun e => deployedIn (nd.chain ++ [b]) e.1) &&
+  b.diff.replaced.all (fun e => deployedIn (nd.chain ++ [b]) e.1)
 
 /-- The tx-hash index entries `writeBlockContent` writes for a block, in writing order. -/
 def txEntries (n : Nat) : Nat → List Tx → List (Nat × (Nat × Nat))
